@@ -45,7 +45,9 @@ def parseProp (fact : Obj) : Except LErr (Option (String × String × J)) :=
 def genId (fact : Obj) (given fresh : String) : Except LErr String := do
   match ← parseProp fact with
   | some (id, prop, _) => pure (genPropId id prop)
-  | none => pure (if given == "" then fresh else given)
+  | none =>
+    let id := if given == "" then fresh else given
+    if isVar id then .error "badIdVar" else pure id
 
 /-! ## durations and RFC3339 (the closed families the generators use) -/
 
